@@ -241,6 +241,18 @@ def run_case(case):
                     regions.append((start, start + n))
             try:
                 if path == "slow":
+                    # an earlier cycle on another buffer object: every cycle
+                    # of a sync group gets its own received frame
+                    sg.current_data = bytearray(
+                        (b ^ 0xa5) for b in frame)
+                    for k, ln in enumerate(links):
+                        if ln["role"] == "write":
+                            setattr(dev, f"w{k}", fit(ln["value"] ^ 1,
+                                                      var_of(ln)["size"]))
+                    dev.update()
+                    for k, ln in enumerate(links):
+                        if ln["role"] == "read":
+                            getattr(dev, f"r{k}")
                     sg.current_data = bytearray(frame)
                     for k, ln in enumerate(links):
                         if ln["role"] == "write":
